@@ -97,7 +97,7 @@ func runC10(r *kit.Run) {
 	}
 	nh := int64(r.Scale(120, 4000))
 	for i := int64(0); i < nh && !r.Stopped(); i++ {
-		if !r.Mine(i) {
+		if !r.Mine(1_000_000 + i) {
 			continue
 		}
 		rng := r.Rng("hook", i)
